@@ -1,4 +1,5 @@
 import Props.Defs
+import Proofs.SortLemmas
 namespace Coma.Proofs
 open Coma Coma.Spec
 
@@ -8,6 +9,431 @@ def selected' (rows : List CRow) (ids : List Int) : List CRow :=
 
 def labelCoords' (rows : List CRow) (id : Int) : List Int :=
   (rows.filter (fun r => r.id = id ∧ r.chan ≠ 0)).map (·.pos)
+end Coma.Proofs
+
+namespace Coma.Proofs.Cmap
+open Coma Coma.Spec Coma.Proofs
+
+/-! ### trim -/
+
+theorem lastD_map_sub (c d : Int) (l : List Int) :
+    lastD (d - c) (l.map (fun p => p - c)) = lastD d l - c := by
+  induction l with
+  | nil => simp [lastD]
+  | cons x xs ih =>
+    cases xs with
+    | nil => simp [lastD]
+    | cons y ys => simpa [lastD] using ih
+
+/-! ### mapM in Except -/
+
+def toOk {ε β} [Inhabited β] : Except ε β → β
+  | .ok b => b
+  | .error _ => default
+
+@[simp] theorem toOk_ok {ε β} [Inhabited β] (b : β) : toOk (Except.ok b : Except ε β) = b := rfl
+
+theorem mapM_cons_except {α β ε} (f : α → Except ε β) (a : α) (l : List α) :
+    (a :: l).mapM f = (match f a with
+      | .error e => .error e
+      | .ok b => match l.mapM f with
+        | .error e => .error e
+        | .ok bs => .ok (b :: bs)) := by
+  rw [List.mapM_cons]
+  cases f a with
+  | error e => rfl
+  | ok b =>
+    cases l.mapM f with
+    | error e => rfl
+    | ok bs => rfl
+
+theorem mapM_ok_iff {α β ε} [Inhabited β] (f : α → Except ε β) (l : List α) (out : List β) :
+    l.mapM f = .ok out ↔ (∀ a ∈ l, ∃ b, f a = .ok b) ∧ out = l.map (fun a => toOk (f a)) := by
+  induction l generalizing out with
+  | nil => simp [pure, Except.pure]
+  | cons a l ih =>
+    rw [mapM_cons_except]
+    cases hfa : f a with
+    | error e =>
+      simp only [List.mem_cons, forall_eq_or_imp, hfa]
+      constructor
+      · intro h; cases h
+      · rintro ⟨⟨⟨b, hb⟩, _⟩, _⟩; cases hb
+    | ok b =>
+      cases hl : l.mapM f with
+      | error e =>
+        simp only [List.mem_cons, forall_eq_or_imp]
+        constructor
+        · intro h; cases h
+        · rintro ⟨⟨_, h2⟩, _⟩
+          have := (ih (l.map (fun a => toOk (f a)))).2 ⟨h2, rfl⟩
+          rw [hl] at this; cases this
+      | ok bs =>
+        have := (ih bs).1 hl
+        simp only [List.mem_cons, forall_eq_or_imp, List.map_cons, hfa, toOk_ok]
+        constructor
+        · intro h
+          injection h with h
+          subst h
+          exact ⟨⟨⟨b, rfl⟩, this.1⟩, by rw [← this.2]⟩
+        · rintro ⟨_, h⟩
+          rw [h, ← this.2]
+
+theorem mapM_error_iff {α β ε} (f : α → Except ε β) (l : List α) :
+    (∃ e, l.mapM f = .error e) ↔ ∃ a ∈ l, ∃ e, f a = .error e := by
+  induction l with
+  | nil => simp [pure, Except.pure]
+  | cons a l ih =>
+    rw [mapM_cons_except]
+    cases hfa : f a with
+    | error e => simp [hfa]
+    | ok b =>
+      cases hl : l.mapM f with
+      | error e =>
+        have := ih.1 (by rw [hl]; exact ⟨e, rfl⟩)
+        simp only [List.mem_cons, exists_eq_or_imp, hfa]
+        constructor
+        · intro _; exact Or.inr this
+        · intro _; exact ⟨e, rfl⟩
+      | ok bs =>
+        simp only [List.mem_cons, exists_eq_or_imp, hfa]
+        constructor
+        · rintro ⟨e, h⟩; cases h
+        · rintro (⟨e, h⟩ | h)
+          · cases h
+          · have := ih.2 h; rw [hl] at this; obtain ⟨e, h⟩ := this; cases h
+
+theorem mapM_congr {α β ε} (f g : α → Except ε β) (l : List α) (h : ∀ a ∈ l, f a = g a) :
+    l.mapM f = l.mapM g := by
+  induction l with
+  | nil => rfl
+  | cons a l ih =>
+    rw [mapM_cons_except, mapM_cons_except, h a (List.mem_cons_self), ih (fun x hx => h x (List.mem_cons_of_mem _ hx))]
+
+/-! ### sortedIds -/
+
+theorem mem_insertUniq (a x : Int) (l : List Int) : x ∈ insertUniq a l ↔ x = a ∨ x ∈ l := by
+  induction l with
+  | nil => simp [insertUniq]
+  | cons b bs ih =>
+    simp only [insertUniq]
+    split
+    · simp
+    · split
+      · rename_i h; subst h; simp
+      · simp [ih]; constructor <;> (intro h; rcases h with h | h | h <;> simp [h])
+
+theorem insertUniq_sorted (a : Int) (l : List Int) (h : l.Pairwise (· < ·)) :
+    (insertUniq a l).Pairwise (· < ·) := by
+  induction l with
+  | nil => simp [insertUniq]
+  | cons b bs ih =>
+    simp only [insertUniq]
+    rw [List.pairwise_cons] at h
+    split
+    · rename_i hab
+      rw [List.pairwise_cons]
+      refine ⟨?_, List.pairwise_cons.2 h⟩
+      intro x hx
+      rcases List.mem_cons.1 hx with rfl | hx
+      · exact hab
+      · exact Int.lt_trans hab (h.1 x hx)
+    · split
+      · exact List.pairwise_cons.2 h
+      · rw [List.pairwise_cons]
+        refine ⟨?_, ih h.2⟩
+        intro x hx
+        rcases (mem_insertUniq a x bs).1 hx with rfl | hx
+        · omega
+        · exact h.1 x hx
+
+theorem sortedIds_sorted (rows : List CRow) : (sortedIds rows).Pairwise (· < ·) := by
+  induction rows with
+  | nil => simp [sortedIds]
+  | cons r rs ih => exact insertUniq_sorted _ _ ih
+
+theorem mem_sortedIds (rows : List CRow) (i : Int) : i ∈ sortedIds rows ↔ ∃ r ∈ rows, r.id = i := by
+  induction rows with
+  | nil => simp [sortedIds]
+  | cons r rs ih =>
+    simp only [sortedIds, mem_insertUniq, ih, List.mem_cons, exists_eq_or_imp]
+    constructor <;> (intro h; rcases h with h | h <;> simp [h])
+
+theorem strict_ext (l₁ l₂ : List Int) (h₁ : l₁.Pairwise (· < ·)) (h₂ : l₂.Pairwise (· < ·))
+    (h : ∀ x, x ∈ l₁ ↔ x ∈ l₂) : l₁ = l₂ := by
+  have n₁ : l₁.Nodup := h₁.imp (fun h => Int.ne_of_lt h)
+  have n₂ : l₂.Nodup := h₂.imp (fun h => Int.ne_of_lt h)
+  have hp : l₁.Perm l₂ := (List.perm_ext_iff_of_nodup n₁ n₂).2 h
+  exact List.Perm.eq_of_pairwise (le := (· < ·)) (fun a b _ _ h1 h2 => by omega) h₁ h₂ hp
+
+theorem sortedIds_perm (rows rows' : List CRow) (hp : rows.Perm rows') :
+    sortedIds rows = sortedIds rows' := by
+  apply strict_ext _ _ (sortedIds_sorted _) (sortedIds_sorted _)
+  intro x
+  rw [mem_sortedIds, mem_sortedIds]
+  constructor <;> rintro ⟨r, hr, h⟩
+  · exact ⟨r, hp.mem_iff.1 hr, h⟩
+  · exact ⟨r, hp.mem_iff.2 hr, h⟩
+
+
+/-! ### parseGroup -/
+
+theorem labelCoords_eq (rows : List CRow) (i : Int) :
+    ((rows.filter (fun r => r.id = i)).filter (fun r => r.chan ≠ 0)).map (·.pos)
+      = labelCoords' rows i := by
+  unfold labelCoords'
+  rw [List.filter_filter]
+  congr 1
+  apply List.filter_congr
+  intro r _
+  by_cases h1 : r.id = i <;> by_cases h2 : r.chan = 0 <;> simp [h1, h2]
+
+theorem isort_eq_nil {α} (key : α → Int) (l : List α) : isort key l = [] ↔ l = [] := by
+  rw [← List.length_eq_zero_iff, isort_length, List.length_eq_zero_iff]
+
+theorem parseGroup_cases (unit i : Int) (rows : List CRow) :
+    parseGroup unit i rows =
+      match (rows.filter (fun r => r.id = i)).find? (fun r => r.chan = 0) with
+      | none => .error .indexError
+      | some em =>
+        if labelCoords' rows i = [] then .ok none
+        else .ok (some ⟨i, Int.tdiv em.pos unit, isort parseGroup.id_ (labelCoords' rows i), 0⟩) := by
+  unfold parseGroup
+  simp only [labelCoords_eq]
+  cases (rows.filter (fun r => r.id = i)).find? (fun r => r.chan = 0) with
+  | none => rfl
+  | some em => simp only [List.isEmpty_iff, isort_eq_nil]
+
+theorem parseGroup_error_iff (unit i : Int) (rows : List CRow) :
+    (∃ e, parseGroup unit i rows = .error e) ↔ ∀ r ∈ rows, r.id = i → r.chan ≠ 0 := by
+  rw [parseGroup_cases]
+  cases hf : (rows.filter (fun r => r.id = i)).find? (fun r => r.chan = 0) with
+  | none =>
+    simp only [List.find?_eq_none, List.mem_filter, decide_eq_true_eq] at hf
+    constructor
+    · intro _ r hr hi; exact hf r ⟨hr, hi⟩
+    · intro _; exact ⟨_, rfl⟩
+  | some em =>
+    have h1 := List.find?_some hf
+    have h2 := List.mem_of_find?_eq_some hf
+    simp only [List.mem_filter, decide_eq_true_eq] at h1 h2
+    constructor
+    · rintro ⟨e, h⟩
+      simp only at h
+      split at h <;> cases h
+    · intro h; exact absurd h1 (h em h2.1 h2.2)
+
+theorem parseGroup_ok (unit i : Int) (rows : List CRow) (o : Option OMap)
+    (h : parseGroup unit i rows = .ok o) :
+    ∃ em, (rows.filter (fun r => r.id = i)).find? (fun r => r.chan = 0) = some em ∧
+      ((labelCoords' rows i = [] ∧ o = none) ∨
+       (labelCoords' rows i ≠ [] ∧
+         o = some ⟨i, Int.tdiv em.pos unit, isort parseGroup.id_ (labelCoords' rows i), 0⟩)) := by
+  rw [parseGroup_cases] at h
+  cases hf : (rows.filter (fun r => r.id = i)).find? (fun r => r.chan = 0) with
+  | none => rw [hf] at h; cases h
+  | some em =>
+    rw [hf] at h
+    refine ⟨em, rfl, ?_⟩
+    simp only at h
+    split at h
+    · rename_i hc; injection h with h; exact Or.inl ⟨hc, h.symm⟩
+    · rename_i hc; injection h with h; exact Or.inr ⟨hc, h.symm⟩
+
+/-! ### readCmap -/
+
+theorem readCmap_eq (unit : Int) (rows : List CRow) (ids : List Int) :
+    readCmap unit rows ids =
+      match (sortedIds (selected' rows ids)).mapM (fun i => parseGroup unit i (selected' rows ids)) with
+      | .ok ms => .ok (ms.filterMap id)
+      | .error e => .error e := by
+  unfold readCmap selected'
+  simp only [bind, Except.bind, pure, Except.pure]
+  split <;> simp_all
+
+theorem readCmap_ok_iff (unit : Int) (rows : List CRow) (ids : List Int) (ms : List OMap) :
+    readCmap unit rows ids = .ok ms ↔
+      (∀ i ∈ sortedIds (selected' rows ids), ∃ b, parseGroup unit i (selected' rows ids) = .ok b) ∧
+      ms = (sortedIds (selected' rows ids)).filterMap
+              (fun i => toOk (parseGroup unit i (selected' rows ids))) := by
+  rw [readCmap_eq]
+  cases hm : (sortedIds (selected' rows ids)).mapM (fun i => parseGroup unit i (selected' rows ids)) with
+  | error e =>
+    constructor
+    · intro h; cases h
+    · rintro ⟨h, _⟩
+      have := (mapM_ok_iff _ _ _).2 ⟨h, rfl⟩
+      rw [hm] at this; cases this
+  | ok out =>
+    have := (mapM_ok_iff _ _ _).1 hm
+    simp only
+    constructor
+    · intro h
+      injection h with h
+      refine ⟨this.1, ?_⟩
+      rw [← h, this.2, List.filterMap_map]; rfl
+    · rintro ⟨_, h⟩
+      rw [h, this.2, List.filterMap_map]; rfl
+
+
+/-! ### selected rows vs. all rows -/
+
+theorem selected_nil (rows : List CRow) : selected' rows [] = rows := rfl
+
+theorem selected_cons (rows : List CRow) (a : Int) (as : List Int) :
+    selected' rows (a :: as) = rows.filter (fun r => (a :: as).contains r.id) := rfl
+
+theorem mem_selected (rows : List CRow) (ids : List Int) (r : CRow) :
+    r ∈ selected' rows ids ↔ r ∈ rows ∧ (ids = [] ∨ r.id ∈ ids) := by
+  cases ids with
+  | nil => simp [selected_nil]
+  | cons a as => simp [selected_cons]
+
+theorem selected_sublist (rows : List CRow) (ids : List Int) : (selected' rows ids).Sublist rows := by
+  cases ids with
+  | nil => exact List.Sublist.refl _
+  | cons a as => exact List.filter_sublist
+
+theorem selected_perm (rows rows' : List CRow) (ids : List Int) (hp : rows.Perm rows') :
+    (selected' rows ids).Perm (selected' rows' ids) := by
+  cases ids with
+  | nil => exact hp
+  | cons a as => exact hp.filter _
+
+theorem selected_filter (rows : List CRow) (ids : List Int) (p : CRow → Bool) (i : Int)
+    (hi : ids = [] ∨ i ∈ ids) (hp : ∀ r, p r = true → r.id = i) :
+    (selected' rows ids).filter p = rows.filter p := by
+  cases ids with
+  | nil => rfl
+  | cons a as =>
+    rw [selected_cons, List.filter_filter]
+    apply List.filter_congr
+    intro r _
+    cases hpr : p r with
+    | false => rfl
+    | true =>
+      have : r.id = i := hp r hpr
+      rcases hi with hi | hi
+      · cases hi
+      · simp [this, hi]
+
+theorem labelCoords_selected (rows : List CRow) (ids : List Int) (i : Int)
+    (hi : ids = [] ∨ i ∈ ids) : labelCoords' (selected' rows ids) i = labelCoords' rows i := by
+  unfold labelCoords'
+  rw [selected_filter rows ids _ i hi]
+  intro r hr
+  simp only [decide_eq_true_eq] at hr
+  exact hr.1
+
+theorem filterMap_ids_sublist (G : Int → Option OMap) (l : List Int)
+    (hG : ∀ i ∈ l, ∀ m, G i = some m → m.id = i) :
+    ((l.filterMap G).map (·.id)).Sublist l := by
+  induction l with
+  | nil => simp
+  | cons a l ih =>
+    have ih' := ih (fun i hi => hG i (List.mem_cons_of_mem _ hi))
+    cases hg : G a with
+    | none => rw [List.filterMap_cons_none hg]; exact ih'.cons _
+    | some m =>
+      rw [List.filterMap_cons_some hg, List.map_cons, hG a (List.mem_cons_self) m hg]
+      exact ih'.cons_cons _
+
+/-- everything the reader guarantees, in terms of the selected rows -/
+theorem read_core (unit : Int) (rows : List CRow) (ids : List Int) (ms : List OMap)
+    (h : readCmap unit rows ids = .ok ms) :
+    StrictAscending (ms.map (·.id)) ∧
+    (∀ m ∈ ms, (∃ r ∈ selected' rows ids, r.id = m.id) ∧
+        labelCoords' (selected' rows ids) m.id ≠ [] ∧
+        m.positions = isort parseGroup.id_ (labelCoords' (selected' rows ids) m.id) ∧ m.shift = 0 ∧
+        ∃ em, ((selected' rows ids).filter (fun r => r.id = m.id)).find? (fun r => r.chan = 0) = some em ∧
+              m.length = Int.tdiv em.pos unit) ∧
+    (∀ r ∈ selected' rows ids, r.chan ≠ 0 → ∃ m ∈ ms, m.id = r.id) := by
+  obtain ⟨hok, hms⟩ := (readCmap_ok_iff unit rows ids ms).1 h
+  generalize hR : selected' rows ids = R at hok hms ⊢
+  have key : ∀ i ∈ sortedIds R, ∀ m, toOk (parseGroup unit i R) = some m →
+      m.id = i ∧ labelCoords' R i ≠ [] ∧ m.positions = isort parseGroup.id_ (labelCoords' R i) ∧
+      m.shift = 0 ∧
+      ∃ em, (R.filter (fun r => r.id = i)).find? (fun r => r.chan = 0) = some em ∧
+            m.length = Int.tdiv em.pos unit := by
+    intro i hi m hm
+    obtain ⟨b, hb⟩ := hok i hi
+    rw [hb, toOk_ok] at hm
+    subst hm
+    obtain ⟨em, hem, hc | hc⟩ := parseGroup_ok unit i R _ hb
+    · cases hc.2
+    · obtain ⟨hc1, hc2⟩ := hc
+      injection hc2 with hc2
+      subst hc2
+      exact ⟨rfl, hc1, rfl, rfl, em, hem, rfl⟩
+  refine ⟨?_, ?_, ?_⟩
+  · rw [hms]
+    exact (sortedIds_sorted R).sublist
+      (filterMap_ids_sublist _ _ (fun i hi m hm => (key i hi m hm).1))
+  · intro m hm
+    rw [hms, List.mem_filterMap] at hm
+    obtain ⟨i, hi, hm⟩ := hm
+    obtain ⟨k1, k2, k3, k4, k5⟩ := key i hi m hm
+    subst k1
+    exact ⟨(mem_sortedIds R _).1 hi, k2, k3, k4, k5⟩
+  · intro r hr hch
+    have hi : r.id ∈ sortedIds R := (mem_sortedIds R _).2 ⟨r, hr, rfl⟩
+    obtain ⟨b, hb⟩ := hok _ hi
+    obtain ⟨em, hem, hc | hc⟩ := parseGroup_ok unit r.id R _ hb
+    · exfalso
+      have : r.pos ∈ labelCoords' R r.id := by
+        unfold labelCoords'
+        exact List.mem_map.2 ⟨r, List.mem_filter.2 ⟨hr, by simp [hch]⟩, rfl⟩
+      rw [hc.1] at this; cases this
+    · refine ⟨⟨r.id, Int.tdiv em.pos unit, isort parseGroup.id_ (labelCoords' R r.id), 0⟩, ?_, rfl⟩
+      rw [hms, List.mem_filterMap]
+      exact ⟨r.id, hi, by rw [hb, toOk_ok]; exact hc.2⟩
+
+/-! ### permutations -/
+
+theorem find_perm {α} (p : α → Bool) (l l' : List α) (hp : l.Perm l')
+    (h1 : (l.filter p).length ≤ 1) : l.find? p = l'.find? p := by
+  rw [← List.head?_filter, ← List.head?_filter]
+  have hf := hp.filter p
+  match hl : l.filter p with
+  | [] => rw [hl] at hf; rw [← hf.nil_eq]
+  | [a] => rw [hl] at hf; rw [List.perm_singleton.1 hf.symm]
+  | a :: b :: t => rw [hl] at h1; simp at h1
+
+theorem isort_perm_eq (l l' : List Int) (hp : l.Perm l') :
+    isort parseGroup.id_ l = isort parseGroup.id_ l' := by
+  have s₁ := isort_sorted parseGroup.id_ l
+  have s₂ := isort_sorted parseGroup.id_ l'
+  rw [List.pairwise_map] at s₁ s₂
+  refine List.Perm.eq_of_pairwise (le := fun a b => parseGroup.id_ a ≤ parseGroup.id_ b) ?_ s₁ s₂ ?_
+  · intro a b _ _ h1 h2
+    simp only [parseGroup.id_] at h1 h2
+    omega
+  · exact (isort_perm _ l).trans (hp.trans (isort_perm _ l').symm)
+
+theorem parseGroup_perm (unit i : Int) (R R' : List CRow) (hp : R.Perm R')
+    (h1 : (R.filter (fun r => r.id = i ∧ r.chan = 0)).length ≤ 1) :
+    parseGroup unit i R = parseGroup unit i R' := by
+  rw [parseGroup_cases, parseGroup_cases, List.find?_filter, List.find?_filter]
+  have hfind : R.find? (fun a => decide (decide (a.id = i) = true ∧ decide (a.chan = 0) = true))
+      = R'.find? (fun a => decide (decide (a.id = i) = true ∧ decide (a.chan = 0) = true)) := by
+    apply find_perm _ _ _ hp
+    have : R.filter (fun a => decide (decide (a.id = i) = true ∧ decide (a.chan = 0) = true))
+        = R.filter (fun r => r.id = i ∧ r.chan = 0) := by
+      apply List.filter_congr; intro r _; simp
+    rw [this]; exact h1
+  have hlc : (labelCoords' R i).Perm (labelCoords' R' i) := (hp.filter _).map _
+  have hs := isort_perm_eq _ _ hlc
+  have hnil : labelCoords' R i = [] ↔ labelCoords' R' i = [] := by
+    constructor
+    · intro h; rw [h] at hlc; exact hlc.nil_eq.symm
+    · intro h; rw [h] at hlc; exact List.Perm.eq_nil hlc
+  rw [hfind, hs]
+  simp only [hnil]
+
+end Coma.Proofs.Cmap
+
+namespace Coma.Proofs
+open Coma Coma.Spec Coma.Proofs.Cmap
 
 theorem readCmap_spec (unit : Int) (rows : List CRow) (ids : List Int) (ms : List OMap)
     (h : readCmap unit rows ids = .ok ms) :
@@ -17,26 +443,67 @@ theorem readCmap_spec (unit : Int) (rows : List CRow) (ids : List Int) (ms : Lis
         ∃ em, (rows.filter (fun r => r.id = m.id)).find? (fun r => r.chan = 0) = some em ∧
               m.length = Int.tdiv em.pos unit) ∧
     (∀ r ∈ selected' rows ids, r.chan ≠ 0 → ∃ m ∈ ms, m.id = r.id) := by
-  sorry
+  obtain ⟨c1, c2, c3⟩ := read_core unit rows ids ms h
+  refine ⟨c1, ?_, c3⟩
+  intro m hm
+  obtain ⟨⟨r, hr, hrid⟩, hne, hpos, hsh, em, hem, hlen⟩ := c2 m hm
+  have hi : ids = [] ∨ m.id ∈ ids := by
+    rw [← hrid]; exact ((mem_selected rows ids r).1 hr).2
+  rw [labelCoords_selected rows ids m.id hi] at hne hpos
+  rw [selected_filter rows ids _ m.id hi (by intro r hr; simpa using hr)] at hem
+  refine ⟨hi, ?_, ?_, ?_, hsh, em, hem, hlen⟩
+  · rw [hpos]; exact isort_perm _ _
+  · rw [hpos]
+    have := isort_sorted parseGroup.id_ (labelCoords' rows m.id)
+    rw [List.pairwise_map] at this
+    exact this
+  · rw [hpos, Ne, isort_eq_nil]; exact hne
 
 theorem readCmap_skip (unit : Int) (rows : List CRow) (ids : List Int) (ms : List OMap)
     (h : readCmap unit rows ids = .ok ms) (id : Int) (hno : labelCoords' (selected' rows ids) id = []) :
     ∀ m ∈ ms, m.id ≠ id := by
-  sorry
+  intro m hm hid
+  obtain ⟨_, c2, _⟩ := read_core unit rows ids ms h
+  obtain ⟨_, hne, _⟩ := c2 m hm
+  rw [hid] at hne
+  exact hne hno
 
 theorem readCmap_error_iff (unit : Int) (rows : List CRow) (ids : List Int) :
     (∃ e, readCmap unit rows ids = .error e) ↔
       ∃ r ∈ selected' rows ids, ∀ r' ∈ selected' rows ids, r'.id = r.id → r'.chan ≠ 0 := by
-  sorry
+  have h0 : (∃ e, readCmap unit rows ids = .error e) ↔
+      ∃ e, (sortedIds (selected' rows ids)).mapM (fun i => parseGroup unit i (selected' rows ids))
+        = .error e := by
+    rw [readCmap_eq]
+    cases (sortedIds (selected' rows ids)).mapM (fun i => parseGroup unit i (selected' rows ids)) with
+    | error e => exact ⟨fun _ => ⟨e, rfl⟩, fun _ => ⟨e, rfl⟩⟩
+    | ok out => exact ⟨fun ⟨e, h⟩ => (by cases h), fun ⟨e, h⟩ => (by cases h)⟩
+  rw [h0, mapM_error_iff]
+  constructor
+  · rintro ⟨i, hi, he⟩
+    obtain ⟨r, hr, hri⟩ := (mem_sortedIds _ _).1 hi
+    refine ⟨r, hr, ?_⟩
+    rw [hri]
+    exact (parseGroup_error_iff unit i _).1 he
+  · rintro ⟨r, hr, hall⟩
+    exact ⟨r.id, (mem_sortedIds _ _).2 ⟨r, hr, rfl⟩, (parseGroup_error_iff unit r.id _).2 hall⟩
 
 theorem readCmap_filter (unit : Int) (rows : List CRow) (ids : List Int) (hne : ids ≠ []) :
     readCmap unit rows ids = readCmap unit (rows.filter (fun r => ids.contains r.id)) [] := by
-  sorry
+  cases ids with
+  | nil => exact absurd rfl hne
+  | cons a as => rw [readCmap_eq, readCmap_eq, selected_nil, selected_cons]
 
 theorem readCmap_perm (unit : Int) (rows rows' : List CRow) (ids : List Int) (hp : rows.Perm rows')
     (h1 : ∀ id, (rows.filter (fun r => r.id = id ∧ r.chan = 0)).length ≤ 1) :
     readCmap unit rows ids = readCmap unit rows' ids := by
-  sorry
+  rw [readCmap_eq, readCmap_eq]
+  have hsp := selected_perm rows rows' ids hp
+  rw [← sortedIds_perm _ _ hsp]
+  rw [mapM_congr _ (fun i => parseGroup unit i (selected' rows' ids))]
+  intro i _
+  apply parseGroup_perm unit i _ _ hsp
+  exact Nat.le_trans ((selected_sublist rows ids).filter _).length_le (h1 i)
 
 theorem trim_spec (m : OMap) (p0 : Int) (ps : List Int) (hp : m.positions = p0 :: ps) :
     m.trim.positions = m.positions.map (· - p0) ∧
@@ -45,9 +512,21 @@ theorem trim_spec (m : OMap) (p0 : Int) (ps : List Int) (hp : m.positions = p0 :
     m.trim.length = lastD p0 m.positions - p0 + 1 ∧
     m.trim.id = m.id ∧
     m.trim.trim = m.trim := by
-  sorry
+  obtain ⟨i, len, pos, sh⟩ := m
+  simp only at hp
+  subst hp
+  have ht : OMap.trim ⟨i, len, p0 :: ps, sh⟩
+      = ⟨i, lastD p0 (p0 :: ps) - p0 + 1, (p0 :: ps).map (fun p => p - p0), 0⟩ := rfl
+  rw [ht]
+  refine ⟨rfl, by simp, by simp, rfl, rfl, ?_⟩
+  have ht2 : OMap.trim ⟨i, lastD p0 (p0 :: ps) - p0 + 1, (p0 :: ps).map (fun p => p - p0), 0⟩
+      = ⟨i, lastD (p0 - p0) ((p0 :: ps).map (fun p => p - p0)) - (p0 - p0) + 1,
+          ((p0 :: ps).map (fun p => p - p0)).map (fun p => p - (p0 - p0)), 0⟩ := rfl
+  rw [ht2, lastD_map_sub]
+  simp
 
 theorem trim_empty (m : OMap) (h : m.positions = []) : m.trim = m := by
-  sorry
+  unfold OMap.trim
+  rw [h]
 
 end Coma.Proofs
